@@ -102,6 +102,40 @@ def run(ctx):
             if op in ("trim", "trim_vals"):
                 bexprs.append(f"is_trim {lit}")
                 bmeta.append((m, op, "trim", om))
+    # ---- cyclic automata: pushing and trimming terminate on every input (determinisation may not)
+    cyc = [F.rand_wfsa(ctx.rng, n=ctx.rng.randint(2, 4), nT=2, narcs=ctx.rng.randint(3, 8), peps=0.1) for _ in range(25 if quick else 250)]
+    cops = ["push", "trim", "trim_vals"]
+    cstrs = [list(x) for x in F.strings(2, 3)]
+    ctab_ = WTable(ctx, "reference-cyclic")
+    for i, m in enumerate(cyc):
+        name = ctab_.machine(m)
+        for xs in cstrs:
+            ctab_.want((i, tuple(xs)), f"@call QcStar {name} {coq_str(xs)}")
+    ctab_.eval()
+    cres = run_w([{"queries": [{"op": op, "m": m, "xs": cstrs, "timeout": 20} for op in cops]} for m in cyc])
+    for i, (m, r) in enumerate(zip(cyc, cres)):
+        ctx.dist("cyclic")
+        for op, q in zip(cops, r):
+            if "err" in q:
+                viol(ctx, f"{op}:cyclic-error:{q['err'][:40]}", f"{op} raised {q['err']} on a cyclic automaton", {"kind": "det-error", "op": op, "machine": m, "error": q["err"]})
+                continue
+            for xs, enc in zip(cstrs, q["ok"]["values"]):
+                ref = ctab_.get((i, tuple(xs)))
+                ctx.count_case(("cyc", i, op, tuple(xs)), nontrivial=ref != 0)
+                if not close_enough(dec_val(enc), ref, rel=1e-9):
+                    viol(ctx, f"{op}:value", f"{op} gives {xs} the weight {dec_val(enc)}; the input automaton gives {ref}", {"kind": "det", "op": op, "machine": m, "xs": xs, "observed": str(dec_val(enc)), "expected": str(ref)})
+            try:
+                om = decode_machine(q["ok"]["machine"], m["nT"])
+            except Exception:
+                continue
+            lit = F.coq_wfsa(om)
+            if op == "push":
+                live = sorted({a[0] for a in om["arcs"]} | {q_[0] for q_ in om["final"]})
+                bexprs.append("forallb (fun q => Qc_eqb (@out_mass QcFR " + lit + " q) 1%Qc) [" + "; ".join(f"{q_}%nat" for q_ in live) + "]")
+                bmeta.append((m, op, "stochastic", om))
+            else:
+                bexprs.append(f"is_trim {lit}")
+                bmeta.append((m, op, "trim", om))
     otab.eval()
     for (i, op, xs), k in otab.keys.items():
         ref = tab.get((i, xs))
